@@ -5,8 +5,12 @@ Subset: positional parameters; local assignment to a single name; `|=`; if/else 
 rest of the block is duplicated into both arms); `return` of an expression or tuple;
 expressions over non-negative ints: names, int constants, `>> << & | + * // %`,
 `(1 << e) - 1` (the only subtraction accepted: it cannot go negative), one comparison,
-`sum(x[a:b])` over a list-of-bytes parameter.  Anything else raises Untranslatable and
-the caller reports the proof obligation as broken (never a guess).
+`sum(x[a:b])` over a list-of-bytes parameter.  A *checker* (a function over the attributes
+of one record parameter that either raises or falls off its end) becomes a Bool function of
+those attributes: `if not (lo <= m.attr <= hi): raise ValueError(..)` contributes `false`,
+the end of the body `true`; chained comparisons and `not` are accepted in conditions.
+Anything else raises Untranslatable and the caller reports the proof obligation as broken
+(never a guess).
 """
 import ast
 import sys
@@ -28,10 +32,16 @@ class Fn:
         self.src = src
         self.list_params = set()
         self.arity = None
+        self.record = None      # checker mode: name of the record parameter
+        self.attrs = []
 
     def expr(self, e) -> str:
         if isinstance(e, ast.Name):
             return e.id
+        if isinstance(e, ast.Attribute) and isinstance(e.value, ast.Name) and self.record is not None and e.value.id == self.record:
+            if e.attr not in self.attrs:
+                raise Untranslatable(f"attribute {e.attr} of the record is not one of {self.attrs}")
+            return e.attr
         if isinstance(e, ast.Constant) and isinstance(e.value, int) and not isinstance(e.value, bool) and e.value >= 0:
             return str(e.value)
         if isinstance(e, ast.BinOp):
@@ -60,7 +70,38 @@ class Fn:
     def cond(self, e) -> str:
         if isinstance(e, ast.Compare) and len(e.ops) == 1 and type(e.ops[0]) in CMPOPS:
             return f"{self.expr(e.left)} {CMPOPS[type(e.ops[0])]} {self.expr(e.comparators[0])}"
+        if isinstance(e, ast.Compare) and len(e.ops) > 1 and all(type(o) in CMPOPS for o in e.ops):
+            terms = [e.left] + list(e.comparators)          # a <= b <= c  is  a <= b and b <= c
+            return "(" + " ∧ ".join(f"{self.expr(terms[i])} {CMPOPS[type(o)]} {self.expr(terms[i + 1])}" for i, o in enumerate(e.ops)) + ")"
+        if isinstance(e, ast.UnaryOp) and isinstance(e.op, ast.Not):
+            return f"¬({self.cond(e.operand)})"
         raise Untranslatable("condition " + ast.unparse(e))
+
+    def checker_block(self, stmts, ind) -> str:
+        """a body that raises or falls off its end: Bool (true = returns normally)"""
+        pad = '  ' * ind
+        if not stmts:
+            return f"{pad}true\n"
+        s, rest = stmts[0], stmts[1:]
+        if isinstance(s, ast.Expr) and isinstance(s.value, ast.Constant) and isinstance(s.value.value, str):
+            return self.checker_block(rest, ind)
+        if isinstance(s, ast.Raise):
+            return f"{pad}false\n"
+        if isinstance(s, ast.If):
+            c = self.cond(s.test)
+            a = self.checker_block(list(s.body) + rest, ind + 1)
+            b = self.checker_block(list(s.orelse) + rest, ind + 1)
+            return f"{pad}if {c} then\n{a}{pad}else\n{b}"
+        raise Untranslatable("statement in a checker " + ast.unparse(s))
+
+    def emit_checker(self, lean_name, attrs) -> str:
+        a = self.node.args
+        if a.vararg or a.kwarg or a.kwonlyargs or a.defaults or a.posonlyargs or len(a.args) != 1:
+            raise Untranslatable("a checker takes exactly one record parameter")
+        self.record, self.attrs = a.args[0].arg, list(attrs)
+        body = self.checker_block(list(self.node.body), 1)
+        ps = " ".join(f"({p} : Nat)" for p in attrs)
+        return f"def {lean_name} {ps} : Bool :=\n{body}"
 
     def block(self, stmts, ind) -> str:
         """translate a statement list that must end in a return on every path"""
@@ -131,6 +172,8 @@ TARGETS = [
     ("nmea2000/encoder.py", "NMEA2000Encoder._build_header", "build_header"),
     ("nmea2000/utils.py", "decode_int", "decode_int"),
     ("nmea2000/utils.py", "calculate_canbus_checksum", "checksum"),
+    # checker: Bool over the listed attributes of its one record parameter (true = no exception)
+    ("nmea2000/encoder.py", "NMEA2000Encoder._check_header", "check_header", ["priority", "source", "PGN", "destination"]),
 ]
 
 
@@ -139,12 +182,12 @@ def translate(repo: str):
     out = ["/- GENERATED by tools/translate_py.py from /repo's working tree. Do not edit. -/",
            "set_option linter.unusedVariables false", "namespace N2k.Straight", ""]
     errors = []
-    for rel, qual, lean_name in TARGETS:
+    for rel, qual, lean_name, *attrs in TARGETS:
         try:
             src = open(f"{repo}/{rel}").read()
             node = find_function(ast.parse(src), qual)
             out.append(f"/-- translated from {rel} `{qual}` -/")
-            out.append(Fn(node, src).emit(lean_name))
+            out.append(Fn(node, src).emit_checker(lean_name, attrs[0]) if attrs else Fn(node, src).emit(lean_name))
         except (Untranslatable, SyntaxError, OSError) as ex:
             errors.append(f"{rel}:{qual}: {ex}")
             out.append(f"-- UNTRANSLATABLE {rel} {qual}: {ex}")
